@@ -61,6 +61,7 @@ func main() {
 	replay := flag.String("replay", "", "re-evaluate the obligation stored in this violation file")
 	list := flag.Bool("list", false, "list every obligation")
 	noEvidence := flag.Bool("no-evidence", false, "do not write evidence files (used by self-tests on scratch copies)")
+	extraFile := flag.String("extra", "", "JSON object to embed in coverage.thorough_extra (self-validation, cross-reference)")
 	flag.Parse()
 
 	if *replay != "" {
@@ -94,7 +95,7 @@ func main() {
 			fmt.Fprintf(os.Stderr, "unknown property %s\n", id)
 			os.Exit(2)
 		}
-		r := runProp(p, *repo, *verif, *tier, seed, *list, !*noEvidence)
+		r := runProp(p, *repo, *verif, *tier, seed, *list, !*noEvidence, *extraFile)
 		if r > rc {
 			rc = r
 		}
@@ -114,7 +115,7 @@ func flagPassed(name string) bool {
 
 type config struct{ tags, goarch, label string }
 
-func runProp(p *Prop, repo, verif, tier string, seed int, list, writeEvidence bool) int {
+func runProp(p *Prop, repo, verif, tier string, seed int, list, writeEvidence bool, extraFile string) int {
 	t0 := time.Now()
 	configs := []config{{"verif", "", "default(tags=verif)"}}
 	if tier == "thorough" {
@@ -286,6 +287,14 @@ func runProp(p *Prop, repo, verif, tier string, seed int, list, writeEvidence bo
 				"notes":               notes,
 				"exhaustive":          false,
 			}}
+		if extraFile != "" {
+			if b, err := os.ReadFile(extraFile); err == nil {
+				var x interface{}
+				if json.Unmarshal(b, &x) == nil {
+					ev.Coverage["thorough_extra"] = x
+				}
+			}
+		}
 		if ev.Assumptions == nil {
 			ev.Assumptions = []string{}
 		}
